@@ -3,6 +3,7 @@
 (* Behaviours are abstract SQL programs ANNOTATED with their intended         *)
 (* structure: pseudo-terminals "<x" / ">x" open and close annotation spans    *)
 (*   stmt:T  statement of get_type() T        id    object reference + alias  *)
+(*           (idx: a reference in a context C12 does not name)                *)
 (*   list    comma separated item list        item  one list item             *)
 (*   where   WHERE clause extent              par   parenthesis               *)
 (*   fn      function call    arg  argument   case  CASE expression           *)
@@ -30,7 +31,7 @@ Prods == [
                   <<"<stmt:CREATE", "CreateTab", ">stmt">>,
                   <<"<stmt:SELECT", "with", "Ctes", "Select", ">stmt">>,
                   <<"<stmt:INSERT", "with", "Ctes", "Insert", ">stmt">>,
-                  <<"<stmt:DROP", "drop", "table", "<id", "Ref", ">id", ">stmt">>,
+                  <<"<stmt:DROP", "drop", "table", "<idx", "Ref", ">idx", ">stmt">>,
                   <<"<stmt:SELECT", "Select", ">stmt">> >>,
   Select   |-> << <<"select", "ItemsL", "FromOpt", "WhereOpt", "GroupOpt", "HavingOpt", "OrderOpt", "LimitOpt", "SetOpt">>,
                   <<"select", "distinct", "ItemsL", "FromOpt", "WhereOpt", "GroupOpt", "HavingOpt", "OrderOpt", "LimitOpt", "SetOpt">> >>,
@@ -74,11 +75,11 @@ Prods == [
   Joins    |-> << <<>>, <<"jointype", "<id", "Ref", "AliasOpt", ">id", "on", "Cond", "Joins">> >>,
   WhereOpt |-> << <<>>, <<"<where", "where", "Cond", ">where">>, <<"<where", "where", "Cond", ">where">> >>,
   GroupOpt |-> << <<>>, <<"groupby", "<list", "RefItems", ">list">> >>,
-  RefItems |-> << <<"<item", "<id", "Ref", ">id", ">item">>, <<"<item", "<id", "Ref", ">id", ">item", "comma", "RefItems">> >>,
+  RefItems |-> << <<"<item", "<idx", "Ref", ">idx", ">item">>, <<"<item", "<idx", "Ref", ">idx", ">item", "comma", "RefItems">> >>,
   HavingOpt |-> << <<>>, <<"having", "Cond">> >>,
   OrderOpt |-> << <<>>, <<"orderby", "<list", "OrdItems", ">list">> >>,
   OrdItems |-> << <<"<item", "Ord", ">item">>, <<"<item", "Ord", ">item", "comma", "OrdItems">> >>,
-  Ord      |-> << <<"<id", "Ref", ">id">>, <<"<id", "Ref", "orddir", ">id">> >>,
+  Ord      |-> << <<"<idx", "Ref", ">idx">>, <<"<idx", "Ref", "orddir", ">idx">> >>,
   LimitOpt |-> << <<>>, <<"limit", "num">> >>,
   SetOpt   |-> << <<>>, <<"setop", "Select">> >>,
   Ctes     |-> << <<"Cte">>, <<"Cte", "comma", "Ctes">> >>,
@@ -93,8 +94,8 @@ Prods == [
   Assign   |-> << <<"Ref", "eq", "Expr">> >>,
   RetOpt   |-> << <<>>, <<"returning", "<list", "RefItems", ">list">> >>,
   Delete   |-> << <<"delete", "from", "<id", "Ref", ">id", "WhereOpt">> >>,
-  CreateTab |-> << <<"create", "table", "<id", "Ref", ">id", "<par", "lp", "ColDefs", "rp", ">par">>,
-                   <<"create", "table", "<id", "Ref", ">id", "as", "Select">> >>,
+  CreateTab |-> << <<"create", "table", "<idx", "Ref", ">idx", "<par", "lp", "ColDefs", "rp", ">par">>,
+                   <<"create", "table", "<idx", "Ref", ">idx", "as", "Select">> >>,
   ColDefs  |-> << <<"ColDef">>, <<"ColDef", "comma", "ColDefs">> >>,
   ColDef   |-> << <<"name", "typename">>, <<"name", "typename", "notnull">>, <<"name", "typename", "primarykey">> >>,
   \* focused start symbols for individual properties
@@ -132,10 +133,10 @@ Next == EmitTerminal \/ Expand \/ Finish
 Spec == Init /\ [][Next]_vars
 
 \* annotation markers are well nested in every finished program (checked by TLC)
-IsOpen(s)  == s \in {"<id", "<list", "<item", "<where", "<par", "<fn", "<arg", "<case", "<when", "<then", "<else",
+IsOpen(s)  == s \in {"<idx", "<id", "<list", "<item", "<where", "<par", "<fn", "<arg", "<case", "<when", "<then", "<else",
                      "<operand", "<cmp", "<l", "<r", "<tl", "<br", "<n", "<q", "<a",
                      "<stmt:SELECT", "<stmt:INSERT", "<stmt:UPDATE", "<stmt:DELETE", "<stmt:CREATE", "<stmt:DROP"}
-IsClose(s) == s \in {">id", ">list", ">item", ">where", ">par", ">fn", ">arg", ">case", ">when", ">then", ">else",
+IsClose(s) == s \in {">idx", ">id", ">list", ">item", ">where", ">par", ">fn", ">arg", ">case", ">when", ">then", ">else",
                      ">operand", ">cmp", ">l", ">r", ">tl", ">br", ">n", ">q", ">a", ">stmt"}
 RECURSIVE Depth(_, _, _)
 Depth(s, i, d) == IF i > Len(s) THEN d
